@@ -280,6 +280,33 @@ func c18kReadCase(version string, ttl int) (obs, sig, msg string) {
 			return fail("read-after-notification-stale", "round %d: resources/read of r1 after its resources/updated was handled returned %q, the server has %q", round, got, v)
 		}
 	}
+	// the resource is replaced (same URI, other contents), later removed: both are announced with
+	// resources/list_changed, and a read after that notification was handled reflects the change
+	if _, err := read("file:///r2"); err != nil {
+		return fail("read-failed", "%v", err)
+	}
+	before := n.resources
+	s.AddResource(&Resource{URI: "file:///r2", Name: "r2 (replaced)"}, func(context.Context, *ReadResourceRequest) (*ReadResourceResult, error) {
+		return &ReadResourceResult{Contents: []*ResourceContents{{URI: "file:///r2", Text: "replaced"}}}, nil
+	})
+	time.Sleep(time.Second)
+	synctest.Wait()
+	if n.resources == before {
+		return fail("notification-lost replace", "replacing a resource produced no resources/list_changed")
+	}
+	if got, err := read("file:///r2"); err != nil || got != "replaced" {
+		return fail("read-after-list-changed-stale", "the resource r2 was replaced; resources/read after the resources/list_changed notification was handled returned %q (%v), the server has %q", got, err, "replaced")
+	}
+	before = n.resources
+	s.RemoveResources("file:///r2")
+	time.Sleep(time.Second)
+	synctest.Wait()
+	if n.resources == before {
+		return fail("notification-lost remove", "removing a resource produced no resources/list_changed")
+	}
+	if got, err := read("file:///r2"); err == nil {
+		return fail("read-after-list-changed-stale", "the resource r2 was removed; resources/read after the resources/list_changed notification was handled still succeeds with %q", got)
+	}
 	return "read ok", "", ""
 }
 
